@@ -57,7 +57,7 @@ class OpcRegReg(RiscvcInstruction):
 
 
 def makec_regreg(mnemonic, func):
-    rd = Operand("rd", RiscvRegister, write=True)
+    rd = Operand("rd", RiscvRegister, read=True, write=True)
     rn = Operand("rn", RiscvRegister, read=True)
     syntax = Syntax(["c", ".", mnemonic, " ", rd, ",", " ", rn])
     members = {"syntax": syntax, "rd": rd, "rn": rn, "func": func}
@@ -79,7 +79,7 @@ class CSlli(RiscvcInstruction):
     def encode(self):
         tokens = self.get_tokens()
         tokens[0][0:2] = 0b10
-        tokens[0][2:7] = self.imm & 0xF
+        tokens[0][2:7] = self.imm & 0x1F
         tokens[0][7:12] = self.rd.num
         tokens[0][13:16] = 0b0000
         return tokens[0].encode()
@@ -89,10 +89,11 @@ class CiBase(RiscvcInstruction):
     def encode(self):
         tokens = self.get_tokens()
         tokens[0][0:2] = 0b01
-        tokens[0][2:7] = self.imm
+        tokens[0][2:7] = self.imm & 0x1F
         tokens[0][7:10] = self.rd.num - 8
         tokens[0][10:12] = self.func
-        tokens[0][12:16] = 0b1000
+        tokens[0][12:13] = self.imm >> 5 & 1
+        tokens[0][13:16] = 0b100
         return tokens[0].encode()
 
 
@@ -111,16 +112,17 @@ CAndi = makec_i("andi", 0b10)
 
 
 class CAddi(RiscvcInstruction):
-    rd = Operand("rd", RiscvRegister, write=True)
+    rd = Operand("rd", RiscvRegister, read=True, write=True)
     imm = Operand("imm", int)
     syntax = Syntax(["c", ".", "addi", " ", rd, ",", " ", rd, ",", " ", imm])
 
     def encode(self):
         tokens = self.get_tokens()
         tokens[0][0:2] = 0b01
-        tokens[0][2:7] = self.imm
+        tokens[0][2:7] = self.imm & 0x1F
         tokens[0][7:12] = self.rd.num
-        tokens[0][12:16] = 0b0000
+        tokens[0][12:13] = self.imm >> 5 & 1
+        tokens[0][13:16] = 0b000
         return tokens[0].encode()
 
 
